@@ -51,6 +51,35 @@ func init() {
 	regCache = make(map[string]*regexp.Regexp)
 }
 
+// isNumber reports whether the given object is an integer or a float.
+func isNumber(obj object.Object) bool {
+	return obj.Type() == object.INTEGER || obj.Type() == object.FLOAT
+}
+
+// numberLessEqual reports whether a <= b, for two numbers, in the same
+// way as the `<=` operator of the scripting language: two integers are
+// compared as integers, anything else as floating-point numbers.
+func numberLessEqual(a object.Object, b object.Object) bool {
+	ai, aInt := a.(*object.Integer)
+	bi, bInt := b.(*object.Integer)
+	if aInt && bInt {
+		return ai.Value <= bi.Value
+	}
+	return numberToFloat(a) <= numberToFloat(b)
+}
+
+// numberToFloat returns the value of an integer or float object as a
+// floating-point number.
+func numberToFloat(obj object.Object) float64 {
+	switch n := obj.(type) {
+	case *object.Integer:
+		return float64(n.Value)
+	case *object.Float:
+		return n.Value
+	}
+	return 0
+}
+
 // fnBetween is the implementation of our between function.
 func fnBetween(args []object.Object) object.Object {
 
@@ -71,24 +100,11 @@ func fnBetween(args []object.Object) object.Object {
 	min := args[1]
 	max := args[2]
 
-	// val < min?
-	lower := fnMin([]object.Object{val, min})
-	if lower == val {
-
-		if val.Inspect() != min.Inspect() {
-			return &object.Boolean{Value: false}
-		}
+	// min <= val <= max, compared as numbers.
+	if numberLessEqual(min, val) && numberLessEqual(val, max) {
+		return &object.Boolean{Value: true}
 	}
-
-	// val > max
-	upper := fnMax([]object.Object{val, max})
-	if upper == val {
-		if val.Inspect() != max.Inspect() {
-			return &object.Boolean{Value: false}
-		}
-	}
-
-	return &object.Boolean{Value: true}
+	return &object.Boolean{Value: false}
 }
 
 // fnFloat is the implementation of the `float` function.
@@ -309,20 +325,16 @@ func fnMax(args []object.Object) object.Object {
 		return &object.Null{}
 	}
 
-	// Create an array.  Yeah.
-	elements := make([]object.Object, 2)
-	elements[0] = args[0]
-	elements[1] = args[1]
+	// Both arguments must be numbers
+	if !isNumber(args[0]) || !isNumber(args[1]) {
+		return &object.Null{}
+	}
 
-	// Construct an actual array.
-	arr := &object.Array{Elements: elements}
-
-	// sort it
-	out := fnSort([]object.Object{arr})
-
-	// max
-	return (out.(*object.Array).Elements[1])
-
+	// The larger of the two, compared as numbers.
+	if numberLessEqual(args[1], args[0]) {
+		return args[0]
+	}
+	return args[1]
 }
 
 // fnMin is the implementation of our `min` function.
@@ -333,20 +345,16 @@ func fnMin(args []object.Object) object.Object {
 		return &object.Null{}
 	}
 
-	// Create an array.  Yeah.
-	elements := make([]object.Object, 2)
-	elements[0] = args[0]
-	elements[1] = args[1]
+	// Both arguments must be numbers
+	if !isNumber(args[0]) || !isNumber(args[1]) {
+		return &object.Null{}
+	}
 
-	// Construct an actual array.
-	arr := &object.Array{Elements: elements}
-
-	// sort it
-	out := fnSort([]object.Object{arr})
-
-	// max
-	return (out.(*object.Array).Elements[0])
-
+	// The smaller of the two, compared as numbers.
+	if numberLessEqual(args[0], args[1]) {
+		return args[0]
+	}
+	return args[1]
 }
 
 // fnNow is the implementation of our `now` function.
